@@ -983,7 +983,7 @@ mutual
 /-- scalars, operators, calls of functions (also through a local of function type) / printing builtins / the reference and
     array helpers (an array index of type `int32`: the helper's parameter type), construction and field access of structs,
     enum variants, tuples and arrays, `let`, `if`, `while`, `match` (on an enum variable that the enclosing arms have not
-    narrowed already: `K`, as in `fragC`; on a literal; on unit) -/
+    narrowed already: `K`, as in `fragC`; on a literal; on unit), `go` -/
 def stdC (env : Env) (file : AFile) (K : KCtx) : CExpr → Bool
   | .imm i => stdImm i
   | .un _ e ty => stdImm e && stdTy ty
@@ -1001,6 +1001,7 @@ def stdC (env : Env) (file : AFile) (K : KCtx) : CExpr → Bool
   | .array items ty => items.all stdImm && stdTy ty
   | .ite c t e ty => stdImm c && stdA env file K t && stdA env file K e && stdTy ty
   | .while c b ty => stdA env file K c && stdA env file K b && stdTy ty
+  | .go e _ => stdImm e
   | .matchE s arms d ty =>
     stdImm s && stdTy ty &&
     (match s.ty with
